@@ -130,6 +130,20 @@ def run_case(case):
             out.append(('lags-leads', [sorted(want_lags), sorted(want_leads)], [Model.LAGS, Model.LEADS], 'LAGS/LEADS for %s with %r' % (script, opt)))
             break
         if not has_label and Model.LAGS >= lags and Model.LEADS >= leads:
+            # spans too short to contain any feasible period: the default range is empty (nothing to solve, nothing raised)
+            for n in range(max(Model.LAGS, Model.LEADS) + 1, Model.LAGS + Model.LEADS + 1):  # both default bounds exist, in reversed order
+                m = Model(range(50, 50 + n))
+                m.values = 1.0
+                try:
+                    labels, idx, flags = m.solve(max_iter=2, failures='ignore', errors='ignore')
+                    if list(labels) or list(idx) or list(flags):
+                        out.append(('default-range:short-span', [], list(labels), 'a span without a feasible period must give an empty default range'))
+                        break
+                except Exception as e:
+                    out.append(('default-range:short-span:exception', 'empty range', repr(e)[:160], 'default solve() on a span of %d period(s) with LAGS=%d, LEADS=%d' % (n, Model.LAGS, Model.LEADS)))
+                    break
+            if out:
+                break
             for extra in (1, 2, 3):
                 n = Model.LAGS + Model.LEADS + extra
                 m = Model(range(50, 50 + n))
@@ -164,6 +178,11 @@ def program_space(tier):
             yield [(l, [m])], True
         for m1, m2 in itertools.product(M, repeat=2):
             yield [(l, [m1, m2])], True
+    # 1 equation, 3 RHS mentions over a reduced mention set (a name repeated with another name of the same class in between)
+    M3 = mentions(kinds=['v', 'p'], offs=[None, -2]) if tier != 'quick' else mentions(kinds=['v', 'p'], offs=[None])
+    for l in lhss(offs=[None]):
+        for m1, m2, m3 in itertools.product(M3, repeat=3):
+            yield [(l, [m1, m2, m3])], False
     # 2 equations, 1 RHS mention each
     for l1, m1, l2, m2 in itertools.product(L, M, L, M):
         yield [(l1, [m1]), (l2, [m2])], False
